@@ -193,8 +193,66 @@ def _shard_seed(seed: int, shard: int, rnd: int = 0) -> int:
     return int.from_bytes(h[:8], 'big')
 
 
+class CaseCpuBudget(BaseException):
+    """one case used more CPU than any legitimate case can"""
+
+
+_HANG: dict[str, Any] = {}
+
+
+def _on_case_budget(signum: int, frame: Any) -> None:
+    where = '?'
+    for fs in traceback.extract_stack(frame):
+        if '/pymap/' in fs.filename:
+            where = f'{fs.filename.split("/pymap/")[-1]}:{fs.name}'
+    if where == '?':
+        fs = traceback.extract_stack(frame)[-1]
+        where = f'{fs.filename.split("/")[-1]}:{fs.name}'
+    _HANG.setdefault('where', where)
+    raise CaseCpuBudget()
+
+
+def run_case_guarded(mod: Any, case: Any) -> CaseOut:
+    """mod.run_case(case) under a per-case CPU watchdog (ITIMER_VIRTUAL,
+    repeating). A server coroutine that spins without ever yielding would
+    otherwise hang the whole check; asyncio stores a BaseException raised
+    inside a task in that task, so the hit is also recorded in _HANG and
+    turned into a failure afterwards. Modules that own SIGVTALRM themselves
+    set OWN_CPU_BUDGET."""
+    import signal
+    if getattr(mod, 'OWN_CPU_BUDGET', False):
+        return mod.run_case(case)
+    budget = float(getattr(mod, 'CASE_CPU_BUDGET', 120.0))
+    _HANG.clear()
+    old = signal.signal(signal.SIGVTALRM, _on_case_budget)
+    signal.setitimer(signal.ITIMER_VIRTUAL, budget, budget)
+    out: CaseOut | None = None
+    try:
+        out = mod.run_case(case)
+    except CaseCpuBudget:
+        pass
+    finally:
+        signal.setitimer(signal.ITIMER_VIRTUAL, 0)
+        signal.signal(signal.SIGVTALRM, old)
+    if out is None:
+        out = CaseOut()
+    if _HANG:
+        out.fail('hang:' + _HANG['where'],
+                 f'one case used more than {budget:.0f}s of CPU, last seen '
+                 f'in {_HANG["where"]}')
+        _HANG.clear()
+    return out
+
+
+
 def _run_shard(args: tuple[str, str, int, int, int, str]) -> dict[str, Any]:
     mod_name, tier, seed, shard, nshards, part = args
+    try:
+        import faulthandler
+        import signal
+        faulthandler.register(signal.SIGUSR1, all_threads=True)
+    except Exception:
+        pass
     try:
         return _run_shard_inner(mod_name, tier, seed, shard, nshards, part)
     except BaseException:
@@ -215,7 +273,7 @@ def _run_shard_inner(mod_name: str, tier: str, seed: int, shard: int,
                 if i % nshards != shard:
                     continue
                 case = canon(case)
-                out = mod.run_case(case)
+                out = run_case_guarded(mod, case)
                 for f in acc.add(out, known):
                     if f.signature not in acc.violations:
                         acc.violations[f.signature] = {
@@ -249,7 +307,7 @@ def _run_hypothesis(mod: Any, tier: str, seed: int, shard: int, acc: _Acc,
             if state['t_first'] is not None \
                     and time.time() - state['t_first'] > shrink_budget:
                 raise _StopShrink()   # keep the best reproduction so far
-            out = mod.run_case(case)
+            out = run_case_guarded(mod, case)
             if state['t_first'] is None:
                 unknown = acc.add(out, known)
             else:  # shrinking: do not count these runs as evidence
@@ -339,7 +397,7 @@ def run_property(mod_name: str, tier: str, seed: int,
             rec = jload(f.read())
         if hasattr(mod, 'shard_setup'):
             mod.shard_setup(0)
-        out = mod.run_case(rec['case'])
+        out = run_case_guarded(mod, rec["case"])
         if hasattr(mod, 'shard_teardown'):
             mod.shard_teardown(0)
         bad = [f for f in out.failures if f.signature not in known]
@@ -360,7 +418,7 @@ def run_property(mod_name: str, tier: str, seed: int,
     if hasattr(mod, 'shard_setup'):
         mod.shard_setup(99)
     for name, case in _regression_cases(prop_id):
-        out = mod.run_case(case)
+        out = run_case_guarded(mod, case)
         n_regress += 1
         for f in total.add(out, known):
             total.violations.setdefault(
